@@ -143,7 +143,6 @@ def judge(s, mode, base, toks, tt, kw, names):
     pos = positions(s, l0, c0)
     spans = []
     prev = 0
-    lf_param = False   # an alias parameter containing a line feed was passed
     for k, (ty, lit, ind, sl, sc, el, ec) in enumerate(toks):
         nm = names.get(ty, "KEYWORD")
         a = prev
@@ -159,15 +158,12 @@ def judge(s, mode, base, toks, tt, kw, names):
         if ty == tt["EOF"] and a != n:
             return ("partition mode=%s type=EOF early" % mode, "EOF token although %r is left at offset %d" % (s[a:a + 8], a))
         spans.append((a, b))
-        tag = " after-alias-parameter-with-LF" if lf_param or (ty == tt["ALIAS_PARAMETER"] and "\n" in lit) else ""
         if (sl, sc) != pos[a]:
-            return ("position mode=%s field=start%s" % (mode, tag),
+            return ("position mode=%s field=start" % mode,
                     "token %d (%s %r) at code-point offset %d: Range.Start=%s, counted position %s" % (k, nm, lit, a, (sl, sc), pos[a]))
         if (el, ec) != pos[b]:
-            return ("position mode=%s field=end%s" % (mode, tag),
+            return ("position mode=%s field=end" % mode,
                     "token %d (%s %r) ends at code-point offset %d: Range.End=%s, counted position %s" % (k, nm, lit, b, (el, ec), pos[b]))
-        if ty == tt["ALIAS_PARAMETER"] and "\n" in lit:
-            lf_param = True
         prev = b
     ref = ref_lex(s, alias, tt, kw)
     got = [(t[0], a, b) for t, (a, b) in zip(toks, spans)]
@@ -177,13 +173,10 @@ def judge(s, mode, base, toks, tt, kw, names):
         g = got[k] if k < len(got) else None
         return ("kind mode=%s want=%s got=%s" % (mode, names.get(r[0], "KEYWORD") if r else None, names.get(g[0], "KEYWORD") if g else None),
                 "token %d: lexical rules give %s over %r, scanner gives %s over %r" % (k, r, s[r[1]:r[2]] if r else None, g, s[g[1]:g[2]] if g else None))
-    lf_param = False
     for k, (ty, lit, ind, sl, sc, el, ec) in enumerate(toks):
-        if ty == tt["ALIAS_PARAMETER"] and "\n" in lit:
-            lf_param = True
         want = spec_indent(s, spans, k, i0)
         if ind != want:
-            return ("indent mode=%s%s" % (mode, " after-alias-parameter-with-LF" if lf_param else ""),
+            return ("indent mode=%s" % mode,
                     "token %d (%s %r) has Indent=%d, the line it ends on has depth %d" % (k, names.get(ty, "KEYWORD"), lit, ind, want))
     return None
 
@@ -364,9 +357,9 @@ def gen_source(rng, kws):
             v = rng.random()
             if v < 0.6:
                 return "<" + word() + ">"
-            if v < 0.97:
+            if v < 0.9:
                 return rng.choice(["<>", "<1a>", "<a b>", "<a", "<", "<<a>>", "<a<b>", "< a>", "<ä€>", "<a\tb>", "<wahr>"])
-            return rng.choice(["<a\nb>", "<\n>", "<a\r\nb"])
+            return rng.choice(["<a\nb>", "<\n>", "<a\r\nb", "<a\n\tb>", "<\n    x>", "<a\n\n"])
         if r < 0.92:
             return rng.choice([".", ",", ":", "(", ")", "-", "...", "..", "....", ". ..", "-1", "(a)"])
         return rng.choice(["?", "!", "+", "*", "/", "=", ";", "~", "§", "€", "\U0001F600", ">", "]", "\\", "<", "{", "}", "|", "\x00", "\x0b", "\xa0", " "])
